@@ -140,6 +140,15 @@ fn gen_base(tier: &str, seed: u64, out: &mut dyn FnMut(String)) {
         "vdot i32 3:100000,-100000,3 3:100000,100000,2",
         "vdot i16 2,2:300,-300,2,1 2,2:300,300,2,1",
         "vdot i64 3:1099511627776,-1099511627776,3 3:1073741824,1073741824,2",
+        // round 4: witnesses of the extension theorems (matmul vector x stack, dot with an operand of rank >= 3, zero-length operands)
+        "matmul i64 2:1,2 3,2,2:1,2,3,4,5,6,7,8,9,10,11,12",
+        "matmul i64 2,3,2:1,2,3,4,5,6,7,8,9,10,11,12 2:1,1",
+        "dot i64 2,3,2:1,2,3,4,5,6,7,8,9,10,11,12 3:1,1,1",
+        "dot i64 2:1,2 2,2,3:1,2,3,4,5,6,7,8,9,10,11,12",
+        "dot i64 2,2:1,2,3,4 3,2,2:1,2,3,4,5,6,7,8,9,10,11,12",
+        "dot i64 2,2,2:1,2,3,4,5,6,7,8 2,2,2:1,2,3,4,5,6,7,8",
+        "dot i32 3,3,3:1,2,3,4,5,6,7,8,9,1,2,3,4,5,6,7,8,9,1,2,3,4,5,6,7,8,9 3,3,3:9,8,7,6,5,4,3,2,1,9,8,7,6,5,4,3,2,1,9,8,7,6,5,4,3,2,1",
+        "matmul i64 2,0:- 0:-", "matmul i64 0,2:- 2:1,2", "vdot i64 0:- 0:-", "dot i64 1:5 0,2:-", "inner i64 2,0:- 3,0:-",
     ] { out(l.to_string()); }
 
     // (ii) exhaustive small scope: every ordered pair of vector / matrix / stack shapes with lengths 1..3,
@@ -179,6 +188,27 @@ fn gen_base(tier: &str, seed: u64, out: &mut dyn FnMut(String)) {
         for sb in [vec![2, 2, 3, 2], vec![1, 2, 3, 2], vec![3, 2], vec![3], vec![2], vec![1, 1, 1], vec![2, 3, 2]] {
             for op in OPS { t += 1; out(format!("{op} {} {} {}", TYS[t % 3], tag_off(&sa, 1), tag_off(&sb, 100)));
                             t += 1; out(format!("{op} {} {} {}", TYS[t % 3], tag_off(&sb, 1), tag_off(&sa, 100))); }
+        }
+    }
+
+    // round 4: `dot` with an operand of rank >= 3 (`dot_1d` on a stack, `dot_nd`; outside the statement, modelled as written in
+    // ArrModel/C14Ext.lean and compared): every rank pair up to 4 x 4, lengths 1..4, cubes (all lengths equal: the only shapes
+    // on which `dot_nd` meets numpy's formula), near-cubes (one length off) and unrelated lengths; signed data
+    {
+        let mut r4 = Rng::new(0xC14D07);
+        let n_dot = if thorough { 6000 } else { 900 };
+        for i in 0..n_dot {
+            let (ra, rb) = *r4.pick(&[(1usize, 3usize), (3, 1), (2, 3), (3, 2), (3, 3), (1, 4), (4, 1), (2, 4), (4, 2), (3, 4), (4, 3), (4, 4), (3, 3), (2, 3), (3, 2)]);
+            let base = 1 + r4.below(4);
+            let (mut sa, mut sb): (Vec<usize>, Vec<usize>) = match i % 3 {
+                0 => (vec![base; ra], vec![base; rb]),
+                1 => { let mut a = vec![base; ra]; let mut b = vec![base; rb]; let w = r4.below(ra + rb);
+                       let tgt = if w < ra { &mut a[w] } else { &mut b[w - ra] }; *tgt = 1 + r4.below(4); (a, b) }
+                _ => ((0..ra).map(|_| 1 + r4.below(4)).collect(), (0..rb).map(|_| 1 + r4.below(4)).collect()),
+            };
+            if sa.iter().product::<usize>() * sb.iter().product::<usize>() > 4096 { sa = vec![2; ra]; sb = vec![2; rb]; }
+            t += 1;
+            out(format!("dot {} {} {}", TYS[t % 3], rand_arr(&mut r4, &sa), rand_arr(&mut r4, &sb)));
         }
     }
 
@@ -835,10 +865,11 @@ fn exec_int<N: Num>(op: &str, ty: &str, sa: &str, sb: &str, expected: &str, foll
             Ref::NotCovered => return None,
         });
     }
-    // zero-length axes are outside the statement (lengths 1..): the real crate refuses most empty operands (`zip` / `broadcast` of an
-    // empty array is an error) where the model, which has no such arm, returns the empty sum.  Held to: no divergence between the
-    // receivers (above), and the model's answer whenever the crate does return a value or panics; a refusal is left open
-    if sha.iter().chain(shb.iter()).any(|&d| d == 0) && class_of(&observed) == "err" && (class_of(expected) == "ok" || expected.contains(" | matmul ")) { return Some(Verdict::Open(observed)); }
+    // zero-length axes are outside the statement (lengths 1..), but the model mirrors the crate there as well (`zip` / `broadcast` of an
+    // empty operand is refused: the arms of `vdot`, `inner11`, `innerSplit`, `multiplyScalar` in ArrModel/C14.lean), so the region is
+    // COMPARED like every other one.  Only exception: two matrices with a zero-length axis in the region of the open finding of `dot`
+    // (the model's test-pinned extra check refuses, the driver sends the `matmul` value along): a refusal there is left open
+    if sha.iter().chain(shb.iter()).any(|&d| d == 0) && class_of(&observed) == "err" && expected.contains(" | matmul ") { return Some(Verdict::Open(observed)); }
     // region of the open finding C14-dot-2d-rectangular-refused: the model mirrors the test-pinned refusal of `dot`,
     // the driver sends the textbook product along; the real code is held to the property (the product), not to the model
     if let Some((model, want)) = expected.split_once(" | matmul ") {
